@@ -94,7 +94,7 @@ MsgHdrs(x) == GenMsg(0, 34, FLs[x[1]], CRLF, Lines(x[2]), x[3], BODY0, -1, 0, 64
 FramingLines(idx, clen, pos, nm) ==
   IF clen < 0 THEN Lines(idx)
   ELSE IF pos = 0 THEN <<CLenLine(nm, clen, CRLF)>> \o Lines(idx) ELSE Lines(idx) \o <<CLenLine(nm, clen, CRLF)>>
-ChoicesFraming == {1, 6} \X (UNION { [1..k -> {1, 8, 11, 14, 19, 33}] : k \in 1..(IF K > 2 THEN 2 ELSE K) })
+ChoicesFraming == {1, 6} \X (UNION { [1..k -> {1, 8, 11, 14, 19, 25, 33}] : k \in 1..(IF K > 2 THEN 2 ELSE K) })
                   \X {-1, 0, 2, 3, 4, 12, 13, 600, 65536, 65539, 65548, 131075} \X {0, 1} \X {N_CLen, N_l} \X (1..Len(Bodies)) \X (0..7) \X {CRLF, LFONLY} \X {64, 1}
 \* (the blank line is CRLF or a lone LF -- the latter also as the very last byte of the buffer when the body is empty)
 \* (header capacity 64 or 1: the framing must not depend on whether the Content-Length header fits the caller's array)
